@@ -158,9 +158,14 @@ pub open spec fn first_def(defs: Seq<Node<VarDef>>, name: Name, r: Option<&Node<
         None => forall|j: int| 0 <= j < defs.len() ==> (#[trigger] defs[j]).0.name != name,
     }
 }
+// `slice.iter().find(P)` (std): the first element satisfying the predicate -- the predicate is the code's own closure
 #[verifier::external_body]
-pub fn find_variable_definition<'a>(defs: &'a [Node<VarDef>], name: &Name) -> (r: Option<&'a Node<VarDef>>)
-    ensures first_def(defs@, *name, r)
+pub fn slice_find<'a, T, F: Fn(&T) -> bool>(v: &'a [T], f: F) -> (r: Option<&'a T>)
+    requires forall|x: &T| f.requires((x,))
+    ensures match r {
+        Some(x) => exists|i: int| 0 <= i < v@.len() && #[trigger] v@[i] == *x && f.ensures((&v@[i],), true) && forall|j: int| 0 <= j < i ==> f.ensures((&#[trigger] v@[j],), false),
+        None => forall|j: int| 0 <= j < v@.len() ==> f.ensures((&#[trigger] v@[j],), false),
+    }
 { unimplemented!() }
 
 // ---- schema pieces for validate_implementation_field_types (IndexMap / IndexSet seen as sequences in insertion order) ----
@@ -309,6 +314,13 @@ proof fn spec_examples(a: Name, b: Name, s: &SchemaShim)
 '''
 
 
+
+def _var_find_rw(m):
+    """`var_defs.iter().find(|v| P)` -> `slice_find(var_defs, |v: &Node<VarDef>| -> (b: bool) ensures b == (P, with `v.` written `v.0.`) { P })`: the predicate P is kept verbatim as the closure's body"""
+    import re as _re
+    return "slice_find(var_defs, |v: &Node<VarDef>| -> (b: bool) ensures b == (%s) { %s })" % (_re.sub(r"\bv\.", "v.0.", m.group(1)), m.group(1))
+
+
 def T(name, clauses=None, **kw):
     d = dict(file=IMPLS, kind="fn", name=name, container="Type", container_name="Type", wrap="impl Type", clauses=clauses, props=["C29"])
     d.update(kw)
@@ -346,7 +358,7 @@ UNIT = {
              hints=[("body_start", None, "proof { reveal_with_fuel(is_valid_implementation_field_type_spec, 3); reveal_with_fuel(size, 3); }")],
              props=["C29", "C15", "C14"]),
         dict(file="crates/apollo-compiler/src/validation/variable.rs", kind="fn", name="validate_variable_usage",
-             rewrites=[("var_defs.iter().find(|v| v.name == *var_name)", "find_variable_definition(var_defs, var_name)", 1)],
+             rewrites=[(r"var_defs\.iter\(\)\.find\(\|v\| ([^\n]+?)\)(?=[;\n ])", _var_find_rw, 1, "re")],
              clauses=[("ensures", "error_iff_a_defined_variable_is_used_where_it_is_not_allowed", "r is Err <==> usage_violation(&*var_usage.0, var_defs@, &*argument.0)"),
                       ("ensures", "one_diagnostic_per_violation", "final(diagnostics).entries@.len() == old(diagnostics).entries@.len() + (if r is Err { 1int } else { 0int })"),
                       ("ensures", "earlier_diagnostics_kept", "final(diagnostics).entries@.take(old(diagnostics).entries@.len() as int) =~= old(diagnostics).entries@"),
